@@ -121,7 +121,13 @@ PROPS["C15"] = {
     "functions": [_FB + f"{a}_{p}" for p in ("displayname", "description", "color", "comment", "source_url", "order") for a in ("set", "get")]
                  + ["xandikos.store.git.GitStore.config"]
                  + [_RM + f"{a}_{p}" for p in ("color", "displayname", "comment", "description") for a in ("set", "get")]
-                 + [W + "apply_modify_prop"],
+                 + [W + "apply_modify_prop", _RM + "_write_config"]
+                 + [f"xandikos.store.git.GitStore.get_{p}" for p in ("displayname", "description", "color", "comment", "source_url")]
+                 + [_RM + f"{a}_{p}" for p in ("order", "source_url") for a in ("set", "get")]
+                 + ["xandikos.web.CalendarCollection.get_calendar_color", "xandikos.web.SubscriptionCollection.get_calendar_color",
+                    "xandikos.web.AddressbookCollection.get_addressbook_color", "xandikos.web.CalendarCollection.get_calendar_order",
+                    "xandikos.web.CalendarCollection.get_calendar_description", "xandikos.web.AddressbookCollection.get_addressbook_description",
+                    "xandikos.web.StoreBasedCollection.get_displayname", "xandikos.web.StoreBasedCollection.get_comment"],
     "explanation": "Every metadata setter stores exactly the value and persists once, every getter returns the stored raw "
                    "value (no interpolation), the metadata object is rebuilt from the repository on each access, and PROPPATCH "
                    "reports 200 only when the handler's set_value returned. The configparser / dulwich-config file round trips "
@@ -267,9 +273,9 @@ PROPS["C16"] = {
 PROPS["C17"] = {
     "level": "other",
     "functions": [W + "read_href_element", W + "href_to_path", W + "_get_resources_by_hrefs"],
-    "explanation": "Soundness of every multiget answer (right resource for the href, independence from the other hrefs) and "
-                   "the href codec are discharged; 'each distinct href exactly once' is covered only by the bounded HTTP "
-                   "stand-in (DESIGN 6/C17).",
+    "explanation": "Soundness of every multiget answer (right resource for the href, independence from the other hrefs), "
+                   "'no href is answered twice' and the href codec are discharged; 'every requested href is answered at least once' "
+                   "and the report driver above the resolver are covered only by the bounded HTTP stand-in (DESIGN 6/C17).",
 }
 PROPS["C17"]["functions"] += ["xandikos.caldav.CalendarDataProperty.get_value_ext", W + "Backend.get_resources"]
 PROPS["C12"]["functions"] += ["xandikos.collation._match@bytes"]
@@ -307,7 +313,7 @@ V = "xandikos.store.vdir.VdirStore."
 PROPS["C01"]["functions"] += [V + "import_one", V + "delete_one", V + "_get_etag"]
 PROPS["C02"]["functions"] += [V + "_get_etag", V + "import_one", V + "_get_raw"]
 PROPS["C03"]["functions"] += [V + "import_one", V + "delete_one"]
-PROPS["C04"]["functions"] += [V + "import_one"]
+PROPS["C04"]["functions"] += [V + "import_one", "xandikos.store.git.RepoCollectionMetadata._write_config"]
 STORE_EXPLORE = "store_explore.py"
 _STORE_BOUND = ("histories of <= 5 store operations (quick: 250 seeded samples per back end; thorough: all of length <= 2 plus 3000 seeded samples of length <= 6) over "
                 "2 names x 2 uids x {no, current, stale etag}, deletes, restarts, on tree-git, bare-git and vdir")
@@ -348,8 +354,8 @@ _ALWAYS = {
     "C04": [("write primitives (store)", STORE_EXPLORE, _STORE_BOUND, {}),
             ("crash points (fault enumeration)", "crash_explore.py",
              "every crash point - before/after each rename, replace, unlink, mkdir, open-for-write, close of a written file, and the middle of "
-             "every file write - of replace and create on tree-git and vdir and replace on bare-git (quick; thorough: replace, create, delete, "
-             "set-displayname on all three), child process killed with os._exit, state inspected by a fresh process: collection lists, "
+             "every file write - of replace and create on tree-git and vdir, replace on bare-git and set-displayname with git-config metadata (quick; "
+             "thorough: replace, create, delete, set-displayname on all three, set-displayname with git-config metadata on both git forms), child process killed with os._exit, state inspected by a fresh process: collection lists, "
              "interrupted resource old or new and hashing to its etag, other resources intact, no reference to a missing object", {})],
     "C06": [("uid uniqueness (store)", STORE_EXPLORE, _STORE_BOUND, {})],
     "C07": [("change lists (store)", STORE_EXPLORE, _STORE_BOUND, {"backends": ["tree-git", "bare-git"]}),
